@@ -1028,9 +1028,17 @@ class Job:
         # Locks are not pickleable and must be added back to the state
         state["_lock"] = RLock()
         self.__dict__.update(state)
+        # An unpickled job is already listed in its (unpickled) state point. The
+        # state point must not be used here: while the jobs listed in a state
+        # point are being restored, that state point is still incomplete.
+
+    def __copy__(self):
+        result = type(self).__new__(type(self))
+        result.__setstate__(self.__getstate__())
         # We append to a list of jobs rather than replacing to support
         # transparent id updates between shallow copies of a job.
-        self.statepoint._jobs.append(self)
+        result.statepoint._jobs.append(result)
+        return result
 
     def __deepcopy__(self, memo):
         cls = self.__class__
